@@ -61,6 +61,10 @@ pub struct World {
   pub entries: BTreeMap<String, Entry>,
   /// answers under CacheSetting::Reload where they differ from `entries`
   pub reload_entries: BTreeMap<String, Entry>,
+  /// answers under CacheSetting::Only (what the cache holds); absent = not cached
+  pub only_entries: BTreeMap<String, Entry>,
+  /// modules answered under a final specifier other than the requested one
+  pub final_specifiers: BTreeMap<String, String>,
 }
 
 pub fn render(src: &ModSrc, is_js: bool) -> String {
@@ -151,6 +155,15 @@ impl World {
       _ => None,
     }
   }
+  pub fn only_content(&self, spec: &str) -> Option<Vec<u8>> {
+    match self.only_entries.get(spec)? {
+      Entry::Module { src, raw, .. } => Some(match raw {
+        Some(b) => b.clone(),
+        None => render(src, is_js_ext(spec)).into_bytes(),
+      }),
+      _ => None,
+    }
+  }
   pub fn content(&self, spec: &str) -> Option<Vec<u8>> {
     match self.entries.get(spec)? {
       Entry::Module { src, raw, .. } => Some(match raw {
@@ -177,16 +190,38 @@ pub struct WorldLoader<'a> {
   pub world: &'a World,
   pub log: RefCell<Vec<LoadCall>>,
   pub max_redirects: usize,
+  /// registry worlds: CacheSetting::Only consults `only_entries` even when that map is empty
+  pub only_means_uncached: bool,
+  pub trace: bool,
 }
 
 impl<'a> WorldLoader<'a> {
   pub fn new(world: &'a World) -> Self {
-    WorldLoader { world, log: RefCell::new(vec![]), max_redirects: 10 }
+    WorldLoader { world, log: RefCell::new(vec![]), max_redirects: 10, only_means_uncached: false, trace: std::env::var("DGVERIF_TRACE_LOADS").is_ok() }
   }
   pub fn answer(&self, specifier: &ModuleSpecifier) -> LoadResult {
     self.answer_with(specifier, false, None)
   }
   /// The loader's contract: content whose SHA-256 differs from the presented checksum is rejected.
+  /// CacheSetting::Only: what the cache holds.
+  pub fn answer_only(&self, specifier: &ModuleSpecifier, checksum: Option<&LoaderChecksum>) -> LoadResult {
+    let r = match self.world.only_entries.get(specifier.as_str()) {
+      None | Some(Entry::Missing) => Ok(None),
+      Some(Entry::Error) => Err(LoadError::Other(Arc::new(deno_error::JsErrorBox::generic("load failed")))),
+      Some(Entry::External) => Ok(Some(LoadResponse::External { specifier: specifier.clone() })),
+      Some(Entry::Redirect(to)) => Ok(Some(LoadResponse::Redirect { specifier: ModuleSpecifier::parse(to).unwrap() })),
+      Some(Entry::Module { headers, .. }) => Ok(Some(LoadResponse::Module {
+        content: Arc::from(self.world.only_content(specifier.as_str()).unwrap()),
+        mtime: None,
+        specifier: specifier.clone(),
+        maybe_headers: headers.as_ref().map(|h| h.iter().cloned().collect::<HashMap<_, _>>()),
+      })),
+    }?;
+    if let (Some(LoadResponse::Module { content, .. }), Some(c)) = (&r, checksum) {
+      c.check_source(content).map_err(LoadError::ChecksumIntegrity)?;
+    }
+    Ok(r)
+  }
   pub fn answer_with(&self, specifier: &ModuleSpecifier, reload: bool, checksum: Option<&LoaderChecksum>) -> LoadResult {
     let r = self.answer_raw(specifier, reload)?;
     if let (Some(LoadResponse::Module { content, .. }), Some(c)) = (&r, checksum) {
@@ -214,7 +249,10 @@ impl<'a> WorldLoader<'a> {
       Some(Entry::Module { headers, .. }) => Ok(Some(LoadResponse::Module {
         content: Arc::from(self.world.content_of(specifier.as_str(), reload).unwrap()),
         mtime: None,
-        specifier: specifier.clone(),
+        specifier: match self.world.final_specifiers.get(specifier.as_str()) {
+          Some(f) => ModuleSpecifier::parse(f).unwrap(),
+          None => specifier.clone(),
+        },
         maybe_headers: headers
           .as_ref()
           .map(|h| h.iter().cloned().collect::<HashMap<_, _>>()),
@@ -248,6 +286,9 @@ impl Loader for WorldLoader<'_> {
   }
   fn load(&self, specifier: &ModuleSpecifier, options: LoadOptions) -> LoadFuture {
     let reload = options.cache_setting == CacheSetting::Reload;
+    if self.trace {
+      eprintln!("load {} {} {:?}", options.cache_setting.as_js_str(), specifier, options.maybe_checksum.as_ref().map(|c| c.as_str().to_string()));
+    }
     self.log.borrow_mut().push(LoadCall {
       reload,
       asset: false,
@@ -256,7 +297,11 @@ impl Loader for WorldLoader<'_> {
       checksum: options.maybe_checksum.as_ref().map(|c| c.as_str().to_string()),
       in_dynamic_branch: options.in_dynamic_branch,
     });
-    let r = self.answer_with(specifier, reload, options.maybe_checksum.as_ref());
+    let r = if options.cache_setting == CacheSetting::Only && (self.only_means_uncached || !self.world.only_entries.is_empty()) {
+      self.answer_only(specifier, options.maybe_checksum.as_ref())
+    } else {
+      self.answer_with(specifier, reload, options.maybe_checksum.as_ref())
+    };
     async move { r }.boxed_local()
   }
 }
